@@ -8,6 +8,7 @@ import (
 	"io"
 	"math/rand"
 	"net"
+	"os"
 	"sort"
 	"strings"
 	"time"
@@ -194,7 +195,38 @@ func offString(c *kafka.Conn) string {
 
 // oneFetch runs the real Conn.ReadBatch / Batch.ReadMessage / Batch.Close on one scripted
 // fetch response: "<msgs>;<final error class>;<conn.Offset() after Close>".
+// oneFetch runs oneFetchUnguarded under a watchdog: a ReadBatch / ReadMessage / Close that does
+// not return within 5 s is the result class "HANG" (the scripted connection never blocks, so this
+// is a loop without progress in the library); after three of them the run stops, since every
+// abandoned call keeps a core busy.
+var hungFetches int
+
 func oneFetch(ver int16, off, hwm int64, declared int, set []byte, late bool) (res string, reqOff int64) {
+	type result struct {
+		res string
+		off int64
+	}
+	ch := make(chan result, 1)
+	go func() {
+		r, o := oneFetchUnguarded(ver, off, hwm, declared, set, late)
+		ch <- result{r, o}
+	}()
+	select {
+	case r := <-ch:
+		return r.res, r.off
+	case <-time.After(5 * time.Second):
+		hungFetches++
+		if hungFetches >= 3 {
+			emit("l1", "-", "HANG-breaker:three-fetches-did-not-return", "hang")
+			out.Flush()
+			fmt.Fprintln(os.Stderr, "c02: three fetch decodes did not return within 5 s each (loop without progress in Conn.ReadBatch/Batch.ReadMessage/Close); stopping")
+			os.Exit(4)
+		}
+		return "HANG", -999
+	}
+}
+
+func oneFetchUnguarded(ver int16, off, hwm int64, declared int, set []byte, late bool) (res string, reqOff int64) {
 	sc := &scriptConn{fetchVer: ver, hwm: hwm, declared: declared, set: set}
 	defer func() {
 		if p := recover(); p != nil {
